@@ -2,7 +2,9 @@ package udpswarm
 
 import (
 	"context"
+	"errors"
 	"net"
+	"time"
 
 	"go.brendoncarroll.net/p2p"
 )
@@ -27,6 +29,8 @@ It is included as a transport for secure swarms to be built on.
 */
 type Swarm struct {
 	conn *net.UDPConn
+	// readSem is held by the one Receive call which is reading from the socket.
+	readSem chan struct{}
 }
 
 func New(laddr string) (*Swarm, error) {
@@ -39,7 +43,8 @@ func New(laddr string) (*Swarm, error) {
 		return nil, err
 	}
 	s := &Swarm{
-		conn: conn,
+		conn:    conn,
+		readSem: make(chan struct{}, 1),
 	}
 	return s, nil
 }
@@ -54,8 +59,15 @@ func (s *Swarm) Tell(ctx context.Context, a Addr, data p2p.IOVec) error {
 }
 
 func (s *Swarm) Receive(ctx context.Context, th func(p2p.Message[Addr])) error {
+	// One Receive call reads from the socket at a time.  The others wait here, where the context can reach them.
+	select {
+	case s.readSem <- struct{}{}:
+	case <-ctx.Done():
+		return ctx.Err()
+	}
 	buf := [TheoreticalMTU]byte{}
-	n, remoteAddr, err := s.conn.ReadFromUDP(buf[:])
+	n, remoteAddr, err := s.readFrom(ctx, buf[:])
+	<-s.readSem
 	if err != nil {
 		return err
 	}
@@ -65,6 +77,34 @@ func (s *Swarm) Receive(ctx context.Context, th func(p2p.Message[Addr])) error {
 		Payload: buf[:n],
 	})
 	return nil
+}
+
+// readFrom reads one datagram, or returns the context's error once the context is cancelled.
+// The blocking read is interrupted through the read deadline.
+func (s *Swarm) readFrom(ctx context.Context, buf []byte) (int, *net.UDPAddr, error) {
+	stop := context.AfterFunc(ctx, func() {
+		s.conn.SetReadDeadline(time.Now())
+	})
+	defer stop()
+	for {
+		// clear the deadline first and look at the context second: a cancellation in between is not lost.
+		if err := s.conn.SetReadDeadline(time.Time{}); err != nil {
+			return 0, nil, err
+		}
+		if err := ctx.Err(); err != nil {
+			return 0, nil, err
+		}
+		n, remoteAddr, err := s.conn.ReadFromUDP(buf)
+		if err == nil {
+			return n, remoteAddr, nil
+		}
+		var nerr net.Error
+		if errors.As(err, &nerr) && nerr.Timeout() {
+			// our own cancellation, or a late one of an earlier call.
+			continue
+		}
+		return 0, nil, err
+	}
 }
 
 func (s *Swarm) LocalAddrs() []Addr {
